@@ -8,6 +8,16 @@ NOTES = {
  "C16/": "first missed (radial extents whose larger blocks come last); C16 now uses radial extents 5 and 7 on 3-4 processes and grids (4,1),(3,1)",
  "C18/": "first missed (explicit time 0 never requested when a later checkpoint exists); C18 now loads every checkpoint of a directory by explicit time",
  "C19/": "first missed (no Lagrange shift beyond one z period); C19 now calls get_lagrange_vals with shifts beyond one and two periods, output inside a sentinel buffer",
+ "C01-r2/": "first missed: the harness re-ran each call of a failing sequence in isolation and reported nothing when each passed alone; it now reports the shortest failing prefix (history_dependent)",
+ "C02-r2/": "C02 now reads every accessor again after setLayout / save / setLayout / restore",
+ "C04-r2/": "first missed (no swapper with several layout groups under a Grid); C04 now has multi-group swapper grids with per-layout process grids in its reset events",
+ "C07-r2/": "first missed (no uniform-cubic x uniform-cubic pair drawn among the 2-D samples, single-cell x2 grids only for der 0,0); C07 now draws such pairs explicitly and checks degenerate / unsorted x2 grids in all four derivative branches",
+ "C10-r2/": "first missed (calls were made r-outer / v-inner, which happens to refresh the stale table); C10 now calls step() v-outer / r-inner with an r-dependent transform and in seeded random order otherwise",
+ "C11-r2/": "C11 now plans same-speed / different-dt call sequences on one operator object",
+ "C12-r2/": "C12 reuses one operator and one potential spline (updated in place) per sequence",
+ "C13-r2/": "C13 makes two sweeps on the same ParallelGradient object",
+ "C16-r2/": "C16 builds two DensityFinder objects on the same spline",
+ "C05-r2/": "C05 runs the quasi-neutrality pipeline with a non-zero flux-surface average across process grids",
 }
 rows = []
 for d in sorted(glob.glob("/verif/seeded/*/meta.json")):
